@@ -99,6 +99,10 @@ Definition merge_act (in_ref ref_is_dict new_is_dict : bool) : mact :=
   if negb in_ref || negb ref_is_dict then MSet
   else if negb new_is_dict then MErr
   else MRec.
+(* the same as a table of eight rows, row number = 4*in_ref + 2*ref_is_dict + new_is_dict (the form the translator emits) *)
+Definition act_of_table (t : list mact) (a b c : bool) : mact :=
+  nth ((if a then 4 else 0) + (if b then 2 else 0) + (if c then 1 else 0)) t MErr.
+Definition merge_table : list mact := [MSet; MSet; MSet; MSet; MSet; MSet; MErr; MRec].
 
 Section MergeWith.
   Variable act : bool -> bool -> bool -> mact.
@@ -181,19 +185,27 @@ Definition load_defaults (file : dict) (det : bool) : outcome settings :=
   | _, _, _ => Unmodelled
   end.
 
-(* `_dynamic_default_parameters`: for `lme_fit`, a truthy `force_independent_random_effects` without an explicit `method` *)
-Definition dynamic_defaults (name : string) (kwargs : dict) (p : dict) : dict :=
-  if String.eqb name "lme_fit" then
-    if match dget kwargs "force_independent_random_effects" with Some v => truthy v | None => false end then
-      match dget kwargs "method" with
-      | None | Some JNull => dset p "method" (JList [JStr "lbfgs"; JStr "bfgs"])
-      | Some _ => p
-      end
-    else p
-  else p.
+(* `_dynamic_default_parameters`, as a table (algorithm, key whose truthiness is the condition, key to set, value): for
+   `lme_fit`, a truthy `force_independent_random_effects` without an explicit `method` *)
+Definition dyn_row := (string * string * string * jv)%type.
+Definition dynamic_table : list dyn_row :=
+  [("lme_fit", "force_independent_random_effects", "method", JList [JStr "lbfgs"; JStr "bfgs"])].
+Definition dynamic_defaults_with (table : list dyn_row) (name : string) (kwargs : dict) (p : dict) : dict :=
+  fold_left (fun p row =>
+    match row with
+    | (algo, ck, key, val) =>
+        if String.eqb name algo && match dget kwargs ck with Some v => truthy v | None => false end then
+          match dget kwargs key with
+          | None | Some JNull => dset p key val
+          | Some _ => p
+          end
+        else p
+    end) table p.
+Definition dynamic_defaults := dynamic_defaults_with dynamic_table.
 
 (* `_manage_kwargs`, parameterised by the list of special keys and the merge table (so that the regenerated ones can be plugged in) *)
-Definition manage_kwargs_with (special : list string) (act : bool -> bool -> bool -> mact) (s : settings) (kwargs : dict) : outcome settings :=
+Definition manage_kwargs_with (special : list string) (act : bool -> bool -> bool -> mact) (dyn : list dyn_row)
+           (s : settings) (kwargs : dict) : outcome settings :=
   obind (if mem_str "seed" special then match dget kwargs "seed" with Some v => get_seed v | None => Done (s_seed s) end else Done (s_seed s)) (fun sd =>
   let im := if mem_str "algorithm_initialization_method" special
             then match dget kwargs "algorithm_initialization_method" with Some v => v | None => s_init s end else s_init s in
@@ -202,8 +214,8 @@ Definition manage_kwargs_with (special : list string) (act : bool -> bool -> boo
          else Done (s_device s)) (fun dv =>
   let rest := filter (fun kv => negb (mem_str (fst kv) special)) kwargs in
   obind (mergev_with act (JDict rest) (s_params s)) (fun p =>
-  Done {| s_name := s_name s; s_seed := sd; s_init := im; s_device := dv; s_params := dynamic_defaults (s_name s) kwargs p |}))).
-Definition manage_kwargs := manage_kwargs_with special_keys merge_act.
+  Done {| s_name := s_name s; s_seed := sd; s_init := im; s_device := dv; s_params := dynamic_defaults_with dyn (s_name s) kwargs p |}))).
+Definition manage_kwargs := manage_kwargs_with special_keys merge_act dynamic_table.
 
 (* `AlgorithmSettings(name, **kwargs)` given the parsed default file of `name` *)
 Definition resolve (file : dict) (det : bool) (kwargs : dict) : outcome settings :=
@@ -245,6 +257,7 @@ Definition int_of_frac (fr : jv) (n_iter : jv) : outcome Z :=
   match fr, n_iter with
   | JFloat n d, JInt z => match F2Z_trunc (jfloat n d * Z2F z) with Some r => Done r | None => Failed end
   | JInt a, JInt z => Done (a * z)%Z
+  | JFloat _ _, JNull | JInt _, JNull => Failed           (* TypeError: number * None *)
   | _, _ => Unmodelled
   end.
 
@@ -406,6 +419,33 @@ Definition hval_in (h : heap) (v : hval) : Prop := match v with HA _ => True | H
 Definition hdict_at (h : heap) (o : option hval) : bool :=
   match o with Some (HR b) => is_some (nth_error h b) | _ => false end.
 Definition is_href (v : hval) : bool := match v with HR _ => true | HA v => is_dict v end.
+Section HMergeEntries.
+  Variable act : bool -> bool -> bool -> mact.
+  Variable rec : heap -> addr -> addr -> option (heap * list addr).
+  Variable ra : addr.
+  Fixpoint hmerge_entries (nd : hobj) (h : heap) (log : list addr) {struct nd} : option (heap * list addr) :=
+    match nd with
+    | [] => Some (h, log)
+    | (k, v) :: t =>
+        match nth_error h ra with
+        | None => None
+        | Some rd =>
+            let r := hget rd k in
+            match act (is_some r) (hdict_at h r) (is_href v) with
+            | MSet => hmerge_entries t (hupd h ra (hset rd k v)) (ra :: log)
+            | MErr => None
+            | MRec => match r, v with
+                      | Some (HR rb), HR nb =>
+                          match rec h rb nb with
+                          | Some (h', log') => hmerge_entries t h' (log' ++ log)%list
+                          | None => None
+                          end
+                      | _, _ => None
+                      end
+            end
+        end
+    end.
+End HMergeEntries.
 Fixpoint hmerge_with (act : bool -> bool -> bool -> mact) (f : nat) (h : heap) (ra na : addr) {struct f}
   : option (heap * list addr) :=
   match f with
@@ -413,29 +453,7 @@ Fixpoint hmerge_with (act : bool -> bool -> bool -> mact) (f : nat) (h : heap) (
   | S f' =>
       match nth_error h na with
       | None => None
-      | Some nd =>
-          (fix go (nd : hobj) (h : heap) (log : list addr) {struct nd} : option (heap * list addr) :=
-             match nd with
-             | [] => Some (h, log)
-             | (k, v) :: t =>
-                 match nth_error h ra with
-                 | None => None
-                 | Some rd =>
-                     let r := hget rd k in
-                     match act (is_some r) (hdict_at h r) (is_href v) with
-                     | MSet => go t (hupd h ra (hset rd k v)) (ra :: log)
-                     | MErr => None
-                     | MRec => match r, v with
-                               | Some (HR rb), HR nb =>
-                                   match hmerge_with act f' h rb nb with
-                                   | Some (h', log') => go t h' (log' ++ log)%list
-                                   | None => None
-                                   end
-                               | _, _ => None
-                               end
-                     end
-                 end
-             end) nd h []
+      | Some nd => hmerge_entries act (hmerge_with act f') ra nd h []
       end
   end.
 Definition hmerge := hmerge_with merge_act.
